@@ -1,5 +1,8 @@
 #!/bin/bash
-# Runs every registered quick check once on the unchanged tree; prints one line per check.  tools/run_all.sh [seed]
-cd /verif || exit 1
+# Runs every registered check once on the unchanged tree; prints one line per check.   tools/run_all.sh [seed] [tier]
+cd "$(dirname "$0")/.." || exit 1
 export VERIF_SEED=${1:-1}
-for p in C01 C02 C03 C04 C05 C06 C07 C08 C09 C10 C11 C12 C13 C14 C15 C16 C17 C18 C19 C20; do ./check $p quick 2>&1 | grep -E "^C[0-9]+ quick|VIOLATION"; done
+tier=${2:-quick}
+for p in C01 C02 C03 C04 C05 C06 C07 C08 C09 C10 C11 C12 C13 C14 C15 C16 C17 C18 C19 C20; do
+  s=$(date +%s); ./check $p $tier 2>&1 | grep -E "^C[0-9]+ (quick|thorough)|VIOLATION"; echo "  [$p $tier seed=$VERIF_SEED wall $(( $(date +%s) - s ))s rc=${PIPESTATUS[0]}]"
+done
